@@ -40,8 +40,8 @@ EXHAUSTIVE = ["every 2- and 3-way split of short multi-byte bodies (sub-checks '
 PATH_CHARS = "abcXYZ019-._~!$&'()*+,=:@/"
 QUERY_CHARS = "abcXYZ019-._~!$&'()*+,=:@/?"
 escapes = st.sampled_from(["%20", "%2F", "%C3%A9", "%3f", "%25", "%00"])
-path_parts = st.lists(st.one_of(st.text(PATH_CHARS, min_size=1, max_size=4), escapes), max_size=4).map("".join)
-query_parts = st.lists(st.one_of(st.text(QUERY_CHARS, min_size=1, max_size=4), escapes), max_size=4).map("".join)
+path_parts = st.lists(gen.pick(st.text(PATH_CHARS, min_size=1, max_size=4), escapes), max_size=4).map("".join)
+query_parts = st.lists(gen.pick(st.text(QUERY_CHARS, min_size=1, max_size=4), escapes), max_size=4).map("".join)
 hosts = st.sampled_from(["localhost", "127.0.0.1:8080", "host.example", "h:1"])
 wide_text = st.text(st.sampled_from(list("abz09 \"\\/") + ["Ã©", "ÃŸ", "â‚¬", "æ±‰", "ðŸ˜€", "\u0000", "\n", "\u07ff", "\u0800", "\uffff", "\U00010000"]), max_size=30)
 
@@ -49,8 +49,8 @@ wide_text = st.text(st.sampled_from(list("abz09 \"\\/") + ["Ã©", "ÃŸ", "â‚¬", "æ
 @st.composite
 def url_cases(draw):
     scheme = draw(st.sampled_from(["http", "http", "https", "HTTP", "unix+http"]))
-    path = draw(st.one_of(st.just(""), st.just("/"), path_parts.map(lambda p: "/" + p)))
-    query = draw(st.one_of(st.none(), st.none(), query_parts, st.just("")))
+    path = draw(gen.pick(st.just(""), st.just("/"), path_parts.map(lambda p: "/" + p)))
+    query = draw(gen.pick(st.none(), st.none(), query_parts, st.just("")))
     host = draw(hosts)
     if scheme == "unix+http":
         host = draw(st.sampled_from(["", "localhost"]))
@@ -58,7 +58,7 @@ def url_cases(draw):
     uri = "%s://%s%s" % (scheme, host, path) + ("?" + query if query is not None else "")
     return {"uri": uri, "scheme": scheme, "path": path, "query": query,
             "content_type": draw(st.sampled_from(["application/json-rpc", "application/json", "text/x-json; charset=utf-8"])),
-            "args": draw(st.lists(st.one_of(wide_text, gen.json_values(4)), max_size=3)),
+            "args": draw(st.lists(gen.pick(wide_text, gen.json_values(4)), max_size=3)),
             # "raw-text": the caller hands its own request text to the proxy (written in raw UTF-8, not \\u-escaped)
             "style": draw(st.sampled_from(["call", "notify", "batch", "raw-text", "raw-text"])), "version": draw(st.sampled_from([1.0, 2.0])),
             # what the same proxy did before: nothing, a complete exchange, or a request that failed
@@ -185,7 +185,7 @@ def big_texts():
     return build()
 
 
-reply_values = st.one_of(wide_text, big_texts(), st.lists(wide_text, max_size=4), st.text(max_size=200))
+reply_values = gen.pick(wide_text, big_texts(), st.lists(wide_text, max_size=4), st.text(max_size=200))
 
 
 @st.composite
@@ -194,7 +194,7 @@ def response_cases(draw):
             "gzip": draw(st.sampled_from([False, False, True, 1, 2, 3, 5])), "ascii": draw(st.booleans()), "mode": draw(st.sampled_from(["http", "duck", "duck"])),
             # what the same transport received before: nothing, a complete response, or a response whose
             # reading broke off (connection reset) after some bytes
-            "prior": draw(st.one_of(st.none(), st.none(), st.just("complete"),
+            "prior": draw(gen.pick(st.none(), st.none(), st.just("complete"),
                                     st.tuples(st.just("aborted"), st.integers(0, 2500), st.sampled_from(["Ã©", "â‚¬", "ðŸ˜€", "a"]))))}
 
 
@@ -271,11 +271,18 @@ def client_receive(result, sizes, use_gzip, ensure_ascii, mode="http", prior=Non
         pos = 0
         for n in list(reads) or [len(body)]:
             if not use_gzip:
-                parser.feed(body[pos:pos + n])
+                try:
+                    parser.feed(body[pos:pos + n])
+                except Exception as ex:
+                    fail("C17/client-reassembly", "feeding the parser raised %s: %s" % (type(ex).__name__, str(ex)[:200]), {"reads": reads[:30]})
             pos += n
         if not use_gzip:
-            parser.close()
-            if target.close() != text:
+            try:
+                parser.close()
+                direct = target.close()
+            except Exception as ex:
+                fail("C17/client-reassembly", "the parser/target pair fed with the same pieces raised %s: %s" % (type(ex).__name__, str(ex)[:200]), {"reads": reads[:30]})
+            if direct != text:
                 fail("C17/client-reassembly", "JSONTarget.close() differs from the decoding of the whole", {"reads": reads[:30]})
     else:
         conns = []
@@ -341,7 +348,7 @@ def oracle_client_split(case):
 
 @st.composite
 def server_cases(draw):
-    params = draw(st.lists(st.one_of(wide_text, big_texts().filter(lambda t: len(t) < 3000), gen.json_values(4)), max_size=3))
+    params = draw(st.lists(gen.pick(wide_text, big_texts().filter(lambda t: len(t) < 3000), gen.json_values(4)), max_size=3))
     return {"params": params, "sizes": draw(st.lists(st.integers(1, 1500), max_size=40)),
             "content_type": draw(st.sampled_from(["application/json-rpc", "application/json"])), "ascii": draw(st.booleans())}
 
@@ -398,7 +405,7 @@ CONTENT_TYPES = ["application/json-rpc", "application/json", "application/jsonre
 @st.composite
 def server_reply_cases(draw):
     return {"kind": draw(st.sampled_from(REPLY_KINDS)), "content_type": draw(st.sampled_from(CONTENT_TYPES)),
-            "text": draw(st.one_of(wide_text, st.text(max_size=30))), "sizes": draw(st.lists(st.integers(1, 200), max_size=6)),
+            "text": draw(gen.pick(wide_text, st.text(max_size=30))), "sizes": draw(st.lists(st.integers(1, 200), max_size=6)),
             "version": draw(st.sampled_from([1.0, 2.0]))}
 
 
@@ -555,7 +562,7 @@ def oracle_server_concurrent(case):
 
 @st.composite
 def cgi_cases(draw):
-    return {"params": draw(st.lists(st.one_of(wide_text, gen.json_values(4)), max_size=3)),
+    return {"params": draw(st.lists(gen.pick(wide_text, gen.json_values(4)), max_size=3)),
             "content_type": draw(st.sampled_from(["application/json-rpc", "application/json"])),
             "kind": draw(st.sampled_from(["call", "notification", "garbage"])), "ascii": draw(st.booleans())}
 
@@ -689,9 +696,9 @@ def socket_teardown():
 @st.composite
 def socket_cases(draw):
     family = draw(st.sampled_from(["tcp", "unix"]))
-    path = draw(st.one_of(st.just(""), st.just("/"), path_parts.map(lambda p: "/" + p)))
-    query = draw(st.one_of(st.none(), query_parts))
-    return {"family": family, "path": path, "query": query, "args": draw(st.lists(st.one_of(wide_text, gen.json_values(3)), max_size=3)),
+    path = draw(gen.pick(st.just(""), st.just("/"), path_parts.map(lambda p: "/" + p)))
+    query = draw(gen.pick(st.none(), query_parts))
+    return {"family": family, "path": path, "query": query, "args": draw(st.lists(gen.pick(wide_text, gen.json_values(3)), max_size=3)),
             "content_type": draw(st.sampled_from(["application/json-rpc", "application/json"]))}
 
 
